@@ -420,6 +420,14 @@ class Gen:
         m = self.marker()
         return Frag(["```{code-block} python", ":caption: cap " + m, "", f"{m} = 1", "```"], [], tick=3)
 
+    def b_titled_directive(self, depth, top):
+        # directives with a title argument that docutils only allows where a section could stand (they consult state_machine.match_titles)
+        m = self.marker()
+        name = self.r.choice(["topic", "sidebar", "topic", "rubric", "epigraph", "compound", "container"])
+        first = {"topic": "{topic} Topic " + m, "sidebar": "{sidebar} Side " + m, "rubric": "{rubric} Rubric " + m, "epigraph": "{epigraph}", "compound": "{compound}", "container": "{container} c-" + m}[name]
+        body = [] if name == "rubric" else [f"{m} body *text*", "", "second paragraph"]
+        return Frag(["```" + first] + body + ["```"], [], tick=3)
+
     def b_role_para(self, depth, top):
         return self.para(depth)
 
